@@ -10,6 +10,7 @@ import (
 	"fmt"
 	"reflect"
 	"strings"
+	"time"
 
 	bp "ebuverif/internal/busprog"
 	"ebuverif/internal/evt"
@@ -42,8 +43,22 @@ type hspec struct {
 
 type arrangement struct {
 	H            []hspec `json:"handlers"`
-	PanicHandler int     `json:"panic_handler"` // 0 none, 1 by option, 2 by setter, 3 a panic handler that itself panics is NOT used (outside the property)
+	PanicHandler int     `json:"panic_handler"` // 0 none, 1 by option, 2 by setter (a panic handler that itself panics is outside the property)
+	Obs          bool    `json:"observability"` // a (no-op) Observability is configured
 }
+
+type nopObs struct{}
+
+func (nopObs) OnPublishStart(ctx context.Context, et string, ev any) context.Context { return ctx }
+func (nopObs) OnPublishComplete(ctx context.Context, et string)                      {}
+func (nopObs) OnHandlerStart(ctx context.Context, et string, async bool) context.Context {
+	return ctx
+}
+func (nopObs) OnHandlerComplete(ctx context.Context, d time.Duration, err error) {}
+func (nopObs) OnPersistStart(ctx context.Context, et string, pos int64) context.Context {
+	return ctx
+}
+func (nopObs) OnPersistComplete(ctx context.Context, d time.Duration, err error) {}
 
 func (a arrangement) String() string {
 	var p []string
@@ -54,7 +69,7 @@ func (a arrangement) String() string {
 		}
 		p = append(p, s)
 	}
-	return fmt.Sprintf("[%s] panicHandler=%d", strings.Join(p, " "), a.PanicHandler)
+	return fmt.Sprintf("[%s] panicHandler=%d obs=%v", strings.Join(p, " "), a.PanicHandler, a.Obs)
 }
 
 type pcall struct {
@@ -86,14 +101,18 @@ func (in *inst) Body() {
 		in.rec.Add("panic", id, 0, ht.String()+"|"+fmt.Sprint(val))
 	}
 	var bus *eventbus.EventBus
+	var opts []eventbus.Option
+	if in.a.Obs {
+		opts = append(opts, eventbus.WithObservability(nopObs{}))
+	}
 	switch in.a.PanicHandler {
 	case 1:
-		bus = eventbus.New(eventbus.WithPanicHandler(ph))
+		bus = eventbus.New(append(opts, eventbus.WithPanicHandler(ph))...)
 	case 2:
-		bus = eventbus.New()
+		bus = eventbus.New(opts...)
 		bus.SetPanicHandler(ph)
 	default:
-		bus = eventbus.New()
+		bus = eventbus.New(opts...)
 	}
 	for i, hs := range in.a.H {
 		i, hs := i, hs
@@ -252,6 +271,9 @@ func arrangements(maxLen int) []arrangement {
 			if anyPanic {
 				for ph := 0; ph <= 2; ph++ {
 					l = append(l, arrangement{H: append([]hspec{}, cur...), PanicHandler: ph})
+					if ph != 2 {
+						l = append(l, arrangement{H: append([]hspec{}, cur...), PanicHandler: ph, Obs: true})
+					}
 				}
 			}
 		}
